@@ -3,17 +3,19 @@
 (never to /repo itself). Writes /verif/seeded/MATRIX.json and MATRIX.md.
 usage: seed_matrix.py [workers] [seed-ids...]"""
 import json, os, subprocess, sys, glob, threading, queue, re, shutil
+BASE = os.path.dirname(os.path.dirname(os.path.abspath(__file__)))  # the /verif tree this script lives in (a vp-run snapshot works too)
 workers = int(sys.argv[1]) if len(sys.argv) > 1 else 3
 REG = '--regressions' in sys.argv
+FOCUS = '--focus' in sys.argv
 only = [a for a in sys.argv[2:] if not a.startswith('--')]
 OUTNAME = 'REGRESSIONS' if REG else 'MATRIX'
 WOFF = 10 if REG else 0
-CHECKS = [c['property_id'] for c in json.load(open('/verif/MANIFEST.json'))['checks']]
-seeds = sorted(d for d in glob.glob('/verif/seeded/*/') if os.path.exists(d + 'patch.diff'))
-if REG: seeds = sorted(glob.glob('/verif/seeded/regressions/revert-*.diff'))
+CHECKS = [c['property_id'] for c in json.load(open(BASE + '/MANIFEST.json'))['checks']]
+seeds = sorted(d for d in glob.glob(BASE + '/seeded/*/') if os.path.exists(d + 'patch.diff'))
+if REG: seeds = sorted(glob.glob(BASE + '/seeded/regressions/revert-*.diff'))
 if only: seeds = [s for s in seeds if os.path.basename(s.rstrip('/')).replace('.diff','') in only]
 prev = {}
-if only and os.path.exists(f'/verif/seeded/{OUTNAME}.json'): prev = json.load(open(f'/verif/seeded/{OUTNAME}.json'))
+if only and os.path.exists(BASE + f'/seeded/{OUTNAME}.json'): prev = json.load(open(BASE + f'/seeded/{OUTNAME}.json'))
 q = queue.Queue()
 for s in seeds: q.put(s)
 results = {}
@@ -33,10 +35,14 @@ def work(w):
         if r.returncode != 0:
             row = {'_apply': 'FAILED ' + r.stderr[:200]}
         else:
-            for c in CHECKS:
+            own = sid.split('-')[0]
+            if REG:
+                own = next((e['property'] for e in json.load(open(BASE + '/seeded/regressions/index.json')) if e['patch'] == os.path.basename(patch)), 'C01')
+            todo = CHECKS if not FOCUS else [c for c in CHECKS if c in {own, 'C01', 'C02', 'C15', 'C17'}]
+            for c in todo:
                 shutil.rmtree(out, ignore_errors=True)
-                env = dict(os.environ, VERIF_REPO=repo, VERIF_OUT=out)
-                p = subprocess.run(['/verif/run.sh', c, 'quick'], capture_output=True, text=True, env=env, cwd='/verif')
+                env = dict(os.environ, VERIF_REPO=repo, VERIF_OUT=out, VERIF_DIR=BASE)
+                p = subprocess.run([BASE + '/run.sh', c, 'quick'], capture_output=True, text=True, env=env, cwd=BASE)
                 kinds = sorted(set(re.findall(r'kind=([\w-]+)', p.stdout)))
                 nv = len(re.findall(r'^VIOLATION', p.stdout, re.M))
                 m = re.search(r'new_violations=(\d+)', p.stdout)
@@ -44,9 +50,9 @@ def work(w):
         subprocess.run(f'git -C {repo} checkout -q -- . && git -C {repo} clean -fdq', shell=True)
         with lock:
             results[sid] = row
-            json.dump(dict(prev, **results), open(f'/verif/seeded/{OUTNAME}.json', 'w'), indent=1, sort_keys=True)
+            json.dump(dict(prev, **results), open(BASE + f'/seeded/{OUTNAME}.json', 'w'), indent=1, sort_keys=True)
         print(sid, {c: v['rc'] for c, v in row.items() if isinstance(v, dict) and v['rc'] != 0}, flush=True)
-    subprocess.run(f'git -C /repo worktree remove --force {repo}; rm -rf {out} /verif/bin/mc._tmp_seedrepo_r{w}', shell=True, capture_output=True)
+    subprocess.run(f'git -C /repo worktree remove --force {repo}; rm -rf {out} {BASE}/bin/mc._tmp_seedrepo_r{w}', shell=True, capture_output=True)
 ts = [threading.Thread(target=work, args=(i + 1,)) for i in range(workers)]
 [t.start() for t in ts]; [t.join() for t in ts]
 # merge with previous results when only a subset was run
@@ -57,5 +63,5 @@ for sid in sorted(results):
     caught = [f"{c} ({','.join(v['kinds'])})" for c, v in row.items() if isinstance(v, dict) and v['rc'] == 1]
     other = [f"{c}:rc{v['rc']}" for c, v in row.items() if isinstance(v, dict) and v['rc'] not in (0, 1)]
     lines.append(f"| {sid} | {sid.split('-')[0] if not REG else 'see regressions/index.json'} | {'; '.join(caught) or '**none**'} | {len([1 for v in row.values() if isinstance(v, dict) and v['rc']==0])} checks{(' ; ' + ' '.join(other)) if other else ''} |")
-open(f'/verif/seeded/{OUTNAME}.md', 'w').write('\n'.join(lines) + '\n')
+open(BASE + f'/seeded/{OUTNAME}.md', 'w').write('\n'.join(lines) + '\n')
 print('done')
